@@ -18,7 +18,7 @@ RULE = ("random Cartesian triples away from the singular sets (rho>0.1, polar an
 ASSUMPTIONS = ["vf/geom_ref.py transforms (from the definitions; spherical = (r, azimuth, polar) in this core)"]
 N = {"quick": dict(vectors=320, fields=64), "thorough": dict(vectors=4800, fields=640)}
 MIN_REACH = {"quick": {"rebase_to_cyl": 250, "rebase_to_sph": 250, "roundtrip": 500, "dot_magnitude": 500, "scale": 400,
-                       "from_curvilinear": 400, "field_value": 300, "refusal": 30, "symbolic": 20},
+                       "from_curvilinear": 400, "field_value": 300, "refusal": 30, "symbolic": 20, "short_curvilinear_vector": 600},
              "thorough": {"rebase_to_cyl": 4000, "roundtrip": 8000, "field_value": 3000}}
 SHARD_TIMEOUT = {"quick": 600, "thorough": 3000}
 
@@ -167,6 +167,28 @@ def curvilinear_case(r, sy, rec):
         ok = G.close(rt[0], t[0]) and G.angle_close(rt[1], t[1]) and (G.close(rt[2], t[2]) if name == "cyl" else G.angle_close(rt[2], t[2]))
         if not ok:
             rec.violation(f"roundtrip:{name}->cart->{name}", f"{case['triple']} -> cartesian -> {name} = {rt}", case)
+            continue
+        # vectors given with fewer than three components: what is computed in the curvilinear system (dot, magnitude) must
+        # equal what is computed after re-expression in Cartesian coordinates (only the forward direction: the padded
+        # vector may lie on the polar axis, where the way back is singular)
+        from symplyphysics import dot_vectors, vector_magnitude
+        other = Vector([rho + 1, az / 2 + sympy.Rational(1, 5), z if name == "cyl" else polar / 2 + sympy.Rational(1, 5)], system)
+        other_c = other.rebase(sy.C)
+        for k in (1, 2):
+            short = Vector(list(trip[:k]), system)
+            rec.hit("short_curvilinear_vector")
+            sc = dict(case, components=k)
+            try:
+                short_c = short.rebase(sy.C)
+                d_sys, d_cart = fl(dot_vectors(short, other)), fl(dot_vectors(short_c, other_c))
+                m_sys, m_cart = fl(vector_magnitude(short)), fl(vector_magnitude(short_c))
+            except Exception as x:  # pylint: disable=broad-except
+                rec.violation(f"short-vector-raises:{name}:{type(x).__name__}", f"{k}-component {name} vector {case['triple'][:k]} raised {type(x).__name__}: {str(x)[:100]}", sc)
+                continue
+            if not G.close(d_sys, d_cart, 1e-8):
+                rec.violation(f"dot:{name}:short", f"dot of the {k}-component {name} vector {case['triple'][:k]} with {other.components} is {d_sys} in {name} but {d_cart} after re-expression in Cartesian coordinates", sc)
+            elif not G.close(m_sys, m_cart, 1e-8):
+                rec.violation(f"magnitude:{name}:short", f"magnitude of the {k}-component {name} vector {case['triple'][:k]} is {m_sys} in {name} but {m_cart} after re-expression in Cartesian coordinates", sc)
 
 
 def symbolic_case(sy, rec, r):
